@@ -19,11 +19,14 @@ import (
 	"github.com/lavanet/lava/v5/utils"
 	lavarand "github.com/lavanet/lava/v5/utils/rand"
 	pairingtypes "github.com/lavanet/lava/v5/x/pairing/types"
+	spectypes "github.com/lavanet/lava/v5/x/spec/types"
 	"github.com/lavanet/lava/v5/zz_verif/simrt"
 	"github.com/rs/zerolog"
 	zerologlog "github.com/rs/zerolog/log"
 	"google.golang.org/grpc"
+	"google.golang.org/grpc/codes"
 	"google.golang.org/grpc/credentials/insecure"
+	"google.golang.org/grpc/status"
 )
 
 // C28: consumer sessions account CU exactly and are never shared, under any concurrent schedule of
@@ -106,6 +109,7 @@ type c28Prov struct {
 	cswp    *ConsumerSessionsWithProvider
 	maxCU   uint64
 	healthy bool // every endpoint enabled from the start (never dialled, never disabled)
+	archive bool // endpoints support the "archive" extension
 	// ledger (only acknowledged harness events)
 	completed uint64 // CU of relays completed (done / done-increase-CU-only)
 	inflight  uint64 // reservations handed out by GetSessions and not settled yet
@@ -140,6 +144,9 @@ type c28Call struct {
 	initUnwanted map[string]struct{}
 	considered   map[string]*c28Instant // blocked providers considered by the blocked-list path
 	order        []string
+	ext          bool   // the request asks for the "archive" extension
+	extKey       string // router key of the request inside UsedProviders
+	overlap      bool   // exchanges of an earlier batch of the same request still run: its UsedProviders is in motion
 }
 
 // c28Used wraps the real UsedProviders only to observe AddUnwantedAddresses, which the manager
@@ -153,6 +160,37 @@ type c28Used struct {
 func (u *c28Used) AddUnwantedAddresses(address string, routerKey RouterKey) {
 	u.w.onBlockedConsidered(u, address)
 	u.UsedProviders.AddUnwantedAddresses(address, routerKey)
+}
+
+// c28Opt wraps the real provider optimizer only to observe the selection instant of the regular
+// path: the manager calls Choose* under its read lock with its candidate list.
+type c28Opt struct {
+	ProviderOptimizer
+	w *c28World
+}
+
+func (o *c28Opt) ChooseProviderWithStats(ctx context.Context, all []string, ignored map[string]struct{}, cu uint64, requestedBlock int64) ([]string, *provideroptimizer.SelectionStats) {
+	res, st := o.ProviderOptimizer.ChooseProviderWithStats(ctx, all, ignored, cu, requestedBlock)
+	o.w.onRegularChoice(ctx, all, ignored, cu, res)
+	return res, st
+}
+
+func (o *c28Opt) ChooseProvider(ctx context.Context, all []string, ignored map[string]struct{}, cu uint64, requestedBlock int64) []string {
+	res := o.ProviderOptimizer.ChooseProvider(ctx, all, ignored, cu, requestedBlock)
+	o.w.onRegularChoice(ctx, all, ignored, cu, res)
+	return res
+}
+
+func (o *c28Opt) ChooseBestProviderWithStats(ctx context.Context, all []string, ignored map[string]struct{}, cu uint64, requestedBlock int64) ([]string, *provideroptimizer.SelectionStats) {
+	res, st := o.ProviderOptimizer.ChooseBestProviderWithStats(ctx, all, ignored, cu, requestedBlock)
+	o.w.onRegularChoice(ctx, all, ignored, cu, res)
+	return res, st
+}
+
+func (o *c28Opt) ChooseBestProvider(ctx context.Context, all []string, ignored map[string]struct{}, cu uint64, requestedBlock int64) []string {
+	res := o.ProviderOptimizer.ChooseBestProvider(ctx, all, ignored, cu, requestedBlock)
+	o.w.onRegularChoice(ctx, all, ignored, cu, res)
+	return res
 }
 
 type c28Directive struct{ addrs []string }
@@ -177,11 +215,13 @@ type c28World struct {
 	failGen  map[string]int
 	inFail   map[string]int
 	calls    map[*c28Call]bool
+	byGuid   map[uint64]*c28Call
 	apiBusy  int
 	nRelay   int
 	cuMax    uint64
 	maxSess  int
 	concDone bool
+	overlap  bool
 	guid     uint64
 	// second chance bookkeeping (vacuity probe only)
 	scAt  map[string]time.Time
@@ -208,7 +248,7 @@ func (w *c28World) viol(class, sig, detail string) {
 
 // --- pairing lists -----------------------------------------------------------------------------
 
-func (w *c28World) newProvider(addr string, epoch uint64, maxCU uint64, healthy bool, nEndpoints int) *ConsumerSessionsWithProvider {
+func (w *c28World) newProvider(addr string, epoch uint64, maxCU uint64, healthy bool, archive bool, nEndpoints int) *ConsumerSessionsWithProvider {
 	eps := make([]*Endpoint, 0, nEndpoints)
 	for i := 0; i < nEndpoints; i++ {
 		conn, err := grpc.NewClient("passthrough:///sim", grpc.WithTransportCredentials(insecure.NewCredentials()))
@@ -221,10 +261,13 @@ func (w *c28World) newProvider(addr string, epoch uint64, maxCU uint64, healthy 
 			Geolocation:    1,
 			Connections:    []*EndpointConnection{{Client: &c28Client{w: w, addr: addr}, connection: conn}},
 		}
+		if archive {
+			ep.Extensions = map[string]struct{}{"archive": {}}
+		}
 		eps = append(eps, ep)
 	}
 	cswp := NewConsumerSessionWithProvider(addr, eps, maxCU, epoch, sdk.NewCoin("ulava", sdkmath.NewInt(int64(1000+100*len(w.provs)%700))))
-	p := &c28Prov{id: len(w.provs), addr: addr, epoch: epoch, cswp: cswp, maxCU: maxCU, healthy: healthy}
+	p := &c28Prov{id: len(w.provs), addr: addr, epoch: epoch, cswp: cswp, maxCU: maxCU, healthy: healthy, archive: archive}
 	// a GetSessions call already in progress may pick this object after the update
 	for c := range w.calls {
 		if c.ve > p.veSeen {
@@ -254,7 +297,8 @@ func (w *c28World) buildPairing(stream string, epoch uint64) (map[uint64]*Consum
 		if !healthy {
 			r.Fault("provider_endpoints_disabled")
 		}
-		list[uint64(i)] = w.newProvider(a, epoch, maxCU, healthy, 1+r.Draw(stream, 2))
+		archive := r.Draw(stream, 2) == 1
+		list[uint64(i)] = w.newProvider(a, epoch, maxCU, healthy, archive, 1+r.Draw(stream, 2))
 	}
 	return list, chosen
 }
@@ -326,6 +370,47 @@ func (w *c28World) apiLeave(where string) {
 	}
 }
 
+// (d) regular path: called under the manager's read lock right after the optimizer chose from the
+// manager's own candidate list. A provider that is on the blocked list at this instant may only
+// be chosen if no candidate that is not blocked (and not ignored, with CU room) exists.
+func (w *c28World) onRegularChoice(ctx context.Context, all []string, ignored map[string]struct{}, cu uint64, chosen []string) {
+	guid, ok := utils.GetUniqueIdentifier(ctx)
+	if !ok {
+		return
+	}
+	c := w.byGuid[guid]
+	if c == nil {
+		return
+	}
+	csm := w.csm
+	blockedNow := csm.currentlyBlockedProviderAddresses
+	for _, pa := range chosen {
+		w.r.OracleEvals++
+		if !c28Contains(blockedNow, pa) {
+			continue
+		}
+		var alt []string
+		for _, q := range all {
+			if q == pa || c28Contains(blockedNow, q) {
+				continue
+			}
+			if _, ig := ignored[q]; ig {
+				continue
+			}
+			p := w.provOf[csm.pairing[q]]
+			if p == nil || w.used(p)+cu > p.maxCU*(c.ve+1) {
+				continue
+			}
+			alt = append(alt, q)
+		}
+		if len(alt) > 0 {
+			sort.Strings(alt)
+			w.viol("blocked-provider-chosen-while-unblocked-available", "regular-selection", fmt.Sprintf("relay %s: provider %s is on the blocked list of the current epoch but was in the candidate list of the regular selection and was chosen, although candidate(s) %v are not blocked, not ignored and have CU room", c.relay, pa, alt))
+			return
+		}
+	}
+}
+
 // (d) called under the manager's read lock when the blocked-list path considers `address`
 func (w *c28World) onBlockedConsidered(u *c28Used, address string) {
 	c := u.call
@@ -339,15 +424,17 @@ func (w *c28World) onBlockedConsidered(u *c28Used, address string) {
 	c.considered[address] = inst
 	c.order = append(c.order, address)
 	csm := w.csm
-	if w.updGen != c.updGen || c.inUpdate != 0 || w.inUpdate != 0 {
-		return // a pairing update overlapped the call: no claim
+	if w.updGen != c.updGen || c.inUpdate != 0 || w.inUpdate != 0 || c.overlap {
+		return // a pairing update (or the request's own earlier exchanges) overlapped the call: no claim
 	}
-	key := GetEmptyRouterKey().String()
-	uu := u.UsedProviders.uniqueUsedProviders[key]
+	uu := u.UsedProviders.uniqueUsedProviders[c.extKey]
 	for _, q := range csm.validAddresses {
 		cswp := csm.pairing[q]
 		p := w.provOf[cswp]
 		if p == nil || !p.healthy {
+			continue
+		}
+		if c.ext && !p.archive {
 			continue
 		}
 		if c.validAtStart[q] != cswp {
@@ -392,12 +479,13 @@ func (w *c28World) onBlockedConsidered(u *c28Used, address string) {
 // --- relay task --------------------------------------------------------------------------------
 
 type c28Held struct {
-	addr    string
-	info    *SessionInfo
-	sess    *c28Sess
-	cu      uint64
-	outcome int
-	delay   time.Duration
+	addr       string
+	info       *SessionInfo
+	sess       *c28Sess
+	cu         uint64
+	outcome    int
+	delay      time.Duration
+	grpcStatus bool
 }
 
 const (
@@ -409,8 +497,8 @@ const (
 	c28FailOutOfSync
 )
 
-func (w *c28World) snapshotCall(relay string, cu uint64, up *c28Used) *c28Call {
-	c := &c28Call{relay: relay, cu: cu, ve: w.virtEp, updGen: w.updGen, inUpdate: w.inUpdate,
+func (w *c28World) snapshotCall(relay string, cu uint64, up *c28Used, exts []*spectypes.Extension) *c28Call {
+	c := &c28Call{relay: relay, cu: cu, ve: w.virtEp, updGen: w.updGen, inUpdate: w.inUpdate, ext: len(exts) > 0, extKey: NewRouterKeyFromExtensions(exts).String(),
 		validAtStart: map[string]*ConsumerSessionsWithProvider{}, failGen: map[string]int{}, inFail: map[string]int{},
 		initUnwanted: map[string]struct{}{}, considered: map[string]*c28Instant{}}
 	for _, q := range w.csm.validAddresses {
@@ -420,11 +508,16 @@ func (w *c28World) snapshotCall(relay string, cu uint64, up *c28Used) *c28Call {
 		c.failGen[a] = w.failGen[a]
 		c.inFail[a] = w.inFail[a]
 	}
-	if uu := up.UsedProviders.uniqueUsedProviders[GetEmptyRouterKey().String()]; uu != nil {
+	if uu := up.UsedProviders.uniqueUsedProviders[c.extKey]; uu != nil {
 		for a := range uu.providers {
 			c.initUnwanted[a] = struct{}{}
 		}
 		for a := range uu.unwantedProviders {
+			c.initUnwanted[a] = struct{}{}
+		}
+	} else {
+		// a router key seen for the first time starts from the request's directive
+		for a := range up.UsedProviders.originalUnwantedProviders {
 			c.initUnwanted[a] = struct{}{}
 		}
 	}
@@ -466,18 +559,36 @@ func (w *c28World) relayTask(name string, iters int) {
 			directive = d
 			r.Fault("directive_blocked_providers")
 		}
+		var exts []*spectypes.Extension
+		if r.Draw(ops, 5) == 4 {
+			exts = []*spectypes.Extension{{Name: "archive"}}
+			r.Fault("extension_request")
+		}
 		up := &c28Used{UsedProviders: NewUsedProviders(directive), w: w}
 		batches := 1 + r.Draw(ops, 4)
 		reqName := fmt.Sprintf("%s#%d", name, it)
+		pending := 0
+		done := make(chan struct{}, 64)
+		waitAll := func() {
+			for ; pending > 0; pending-- {
+				simrt.Yield("harness:wait-exchange")
+				<-done
+				simrt.Resume("harness:wait-exchange")
+			}
+		}
 		for b := 0; b < batches && r.Violated() == nil; b++ {
 			w.guid++
-			ctx := utils.WithUniqueIdentifier(context.Background(), w.guid)
-			call := w.snapshotCall(reqName, cu, up)
+			guid := w.guid
+			ctx := utils.WithUniqueIdentifier(context.Background(), guid)
+			call := w.snapshotCall(reqName, cu, up, exts)
+			call.overlap = pending > 0
 			up.call = call
 			w.calls[call] = true
+			w.byGuid[guid] = call
 			w.apiEnter()
-			sessions, err := w.csm.GetSessions(ctx, wanted, cu, up, 100, "", nil, stateful, call.ve, "", "")
+			sessions, err := w.csm.GetSessions(ctx, wanted, cu, up, 100, "", exts, stateful, call.ve, "", "")
 			delete(w.calls, call)
+			delete(w.byGuid, guid)
 			up.call = nil
 			if r.Violated() != nil {
 				w.apiBusy--
@@ -485,8 +596,12 @@ func (w *c28World) relayTask(name string, iters int) {
 			}
 			if err != nil {
 				r.Op("get", "err")
-				r.Logf("%s b%d GetSessions(want=%d cu=%d ve=%d st=%d): error %s", reqName, b, wanted, cu, call.ve, stateful, c28Short(err))
+				r.Logf("%s b%d GetSessions(want=%d cu=%d ve=%d st=%d ext=%v): error %s", reqName, b, wanted, cu, call.ve, stateful, call.ext, c28Short(err))
 				w.apiLeave("getsessions-error")
+				if len(exts) > 0 && PairingListEmptyError.Is(err) {
+					exts = nil // rpcconsumer retries without the extension when nobody supports it
+					continue
+				}
 				break
 			}
 			held := w.onSessionsReturned(reqName, b, call, sessions, wanted, stateful)
@@ -510,6 +625,7 @@ func (w *c28World) relayTask(name string, iters int) {
 					h.outcome = c28FailReportBlock
 				default:
 					h.outcome = c28FailOutOfSync
+					h.grpcStatus = r.Draw(flt, 2) == 1
 				}
 				if h.outcome <= c28DoneCUOnly {
 					allFailed = false
@@ -518,19 +634,21 @@ func (w *c28World) relayTask(name string, iters int) {
 					h.delay = time.Duration(1+r.Draw(ops, 80)) * time.Millisecond
 				}
 			}
-			if w.concDone && len(held) > 1 {
-				done := make(chan struct{}, len(held))
+			if w.concDone && (len(held) > 1 || w.overlap) {
 				for i, h := range held {
 					h := h
+					pending++
 					w.s.Go(fmt.Sprintf("%s.b%d.x%d", reqName, b, i), true, func() {
 						defer func() { done <- struct{}{} }()
 						w.exchange(reqName, h)
 					})
 				}
-				for range held {
-					simrt.Yield("harness:wait-exchange")
-					<-done
-					simrt.Resume("harness:wait-exchange")
+				// hedging: the next batch may be requested while these exchanges still run
+				if !(w.overlap && b+1 < batches && r.Draw(ops, 2) == 1) {
+					waitAll()
+				} else {
+					r.Fault("batch_overlaps_previous_exchanges")
+					continue
 				}
 			} else {
 				for _, h := range held {
@@ -541,6 +659,7 @@ func (w *c28World) relayTask(name string, iters int) {
 				break
 			}
 		}
+		waitAll()
 	}
 }
 
@@ -573,6 +692,13 @@ func (w *c28World) onSessionsReturned(reqName string, b int, call *c28Call, sess
 			w.viol("session-held-by-two-relays", "getsessions", fmt.Sprintf("session #%d of provider %s (epoch %d) returned to relay %s while relay %s still holds it (not yet done/failed)", hs.id, p.addr, p.epoch, reqName, hs.owner))
 			return nil
 		}
+		// (a) the session handed to the relay must be locked for it (same test as the manager's VerifyLock)
+		r.OracleEvals++
+		if s.lock.TryLock() {
+			s.lock.Unlock()
+			w.viol("session-returned-unlocked", "getsessions", fmt.Sprintf("session #%d of provider %s (epoch %d) was returned to relay %s without being locked: any other relay can take it", hs.id, p.addr, p.epoch, reqName))
+			return nil
+		}
 		// (c) what the relay will sign: session CuSum + this relay's CU, and the relay number
 		signed := s.CuSum + s.LatestRelayCu
 		r.OracleEvals++
@@ -595,7 +721,7 @@ func (w *c28World) onSessionsReturned(reqName string, b int, call *c28Call, sess
 		desc = append(desc, fmt.Sprintf("%s/e%d:s#%d(cuSum=%d,n=%d,used=%d)", a, p.epoch, hs.id, s.CuSum, s.RelayNum, w.used(p)))
 	}
 	r.Op("get", "ok")
-	r.Logf("%s b%d GetSessions(want=%d cu=%d ve=%d st=%d) -> %s", reqName, b, wanted, call.cu, call.ve, stateful, strings.Join(desc, " "))
+	r.Logf("%s b%d GetSessions(want=%d cu=%d ve=%d st=%d ext=%v) -> %s", reqName, b, wanted, call.cu, call.ve, stateful, call.ext, strings.Join(desc, " "))
 
 	// (d) blocked providers only when no unblocked provider could serve the request
 	for _, pa := range call.order {
@@ -679,6 +805,13 @@ func (w *c28World) exchange(reqName string, h *c28Held) {
 	s := h.info.Session
 	hs := h.sess
 	p := hs.prov
+	// (a) still exclusively ours: nobody may have unlocked the session the relay holds
+	r.OracleEvals++
+	if s.lock.TryLock() {
+		s.lock.Unlock()
+		w.viol("held-session-found-unlocked", "exchange", fmt.Sprintf("session #%d of provider %s (epoch %d) held by relay %s is no longer locked before the relay reported its result: somebody else released it", hs.id, p.addr, p.epoch, reqName))
+		return
+	}
 	// release in the model first: from here on the manager may hand the session to somebody else
 	hs.owner = ""
 	hs.finishing++
@@ -712,6 +845,9 @@ func (w *c28World) exchange(reqName string, h *c28Held) {
 			kind, cause = "fail_report_block", sdkerrors.Wrap(ReportAndBlockProviderError, "sim: bad reply")
 		default:
 			kind, cause = "fail_out_of_sync", sdkerrors.Wrap(SessionOutOfSyncError, "sim: provider lost the session")
+			if h.grpcStatus {
+				cause = status.Error(codes.Code(SessionOutOfSyncError.ABCICode()), "sim: provider lost the session")
+			}
 		}
 		r.Fault(kind)
 		w.failGen[p.addr]++
@@ -839,7 +975,7 @@ func runC28(r *simrt.Run) {
 	defer simrt.SetMapOrder(simrt.MapOrderNative, 0)
 	inBubble(r, func(s *simrt.Sched) {
 		w := &c28World{r: r, s: s, provOf: map[*ConsumerSessionsWithProvider]*c28Prov{}, sessOf: map[*SingleConsumerSession]*c28Sess{},
-			failGen: map[string]int{}, inFail: map[string]int{}, calls: map[*c28Call]bool{}, scAt: map[string]time.Time{}, scGen: map[string]int{}}
+			failGen: map[string]int{}, inFail: map[string]int{}, calls: map[*c28Call]bool{}, byGuid: map[uint64]*c28Call{}, scAt: map[string]time.Time{}, scGen: map[string]int{}}
 		nProv := 2 + r.Draw("cfg", 4)
 		for i := 0; i < nProv; i++ {
 			w.addrs = append(w.addrs, fmt.Sprintf("lava@p%d", i))
@@ -851,17 +987,21 @@ func runC28(r *simrt.Run) {
 		}
 		MaxSessionsAllowedPerProvider = w.maxSess
 		w.concDone = r.Draw("cfg", 2) == 1
+		w.overlap = w.concDone && r.Draw("cfg", 2) == 1
 		w.nRelay = 2 + r.Draw("cfg", 4)
 		iters := 2 + r.Draw("cfg", 6)
 		if r.Tier == "thorough" {
 			iters = 3 + r.Draw("cfg", 20)
 		}
 		nUpd := r.Draw("cfg", 5)
+		if r.Tier == "thorough" {
+			nUpd = r.Draw("cfg", 12)
+		}
 
 		lavarand.InitRandomSeed()
 		optimizer := provideroptimizer.NewProviderOptimizer(provideroptimizer.StrategyBalanced, 10*time.Second, 1, nil, "LAV1")
 		optimizer.SetDeterministicSeed(int64(r.Draw64("cfg") >> 1))
-		w.csm = NewConsumerSessionManager(&RPCEndpoint{NetworkAddress: "stub", ChainID: "LAV1", ApiInterface: "rest", HealthCheckPath: "/", Geolocation: 1}, optimizer, nil, "lava@consumer", NewActiveSubscriptionProvidersStorage())
+		w.csm = NewConsumerSessionManager(&RPCEndpoint{NetworkAddress: "stub", ChainID: "LAV1", ApiInterface: "rest", HealthCheckPath: "/", Geolocation: 1}, &c28Opt{ProviderOptimizer: optimizer, w: w}, nil, "lava@consumer", NewActiveSubscriptionProvidersStorage())
 
 		w.update("cfg", 20)
 
